@@ -6,9 +6,14 @@ HEX = "0123456789abcdef"
 
 def _parse(case):
     f = case.split()
-    if len(f) != 6 or f[0] != "L" or f[2] != "S" or f[4] != "T":
+    if len(f) < 6 or f[0] != "L" or f[2] != "S" or f[4] != "T":
         return None
     return f[1], int(f[3]), f[5]
+
+
+def _opts(case):
+    f = case.split()
+    return " ".join(f[6:])
 
 
 class Find(Engine):
@@ -25,6 +30,8 @@ class Find(Engine):
         ks, s, stop = p
         n = len(ks)
         out = []
+        if _opts(case):
+            return []  # link / relative-start variants are small already (3 levels)
 
         def emit(ks2, s2, stop2):
             if not ks2 or s2 < 0 or s2 >= len(ks2):
@@ -77,6 +84,11 @@ class Find(Engine):
             out.append("has-directory-named-spokfile")
         if any(HEX.index(c) // 4 == 1 and HEX.index(c) % 2 == 1 for c in ks):
             out.append("entry-sorting-before-spokfile")
+        o = _opts(rec[0])
+        if "LN" in o:
+            out.append("level-is-symbolic-link")
+        if "REL" in o:
+            out.append("relative-start")
         return out
 
     def rule(self, prop):
@@ -84,6 +96,8 @@ class Find(Engine):
                 "named spokfile} x {no other entry, one sorting before, one after, both}) and every chain of 4 levels over the 8 "
                 "reconnaissance kinds (thorough: over all 12), x every start level x stop in {each level, an unrelated directory next to each level, /}, "
                 "each built as a real temp tree, file.Find called with an iteration budget and under the supervisor's timeout; "
+                "every chain of 3 levels over the 8 kinds again with each level in turn a symbolic link to a directory elsewhere, and with "
+                "every working directory at or above start and start given relative to it; "
                 "corpus (D11 witnesses) first; non-trivial = distinct configuration")
 
 
@@ -97,5 +111,7 @@ FIND_MODELLED = [
 
 PROPS = {
     "C17": {"engine": "find", "modelled": FIND_MODELLED,
-            "assumptions": ["start and stop are absolute, clean paths of existing readable directories (cli/app passes $CWD and $HOME)"]},
+            "assumptions": ["start and stop are absolute, clean paths of existing readable directories (cli/app passes $CWD and $HOME); "
+                            "reading fixed for a RELATIVE start (judge relSpec, outside the theorems): the call terminates and finds the nearest "
+                            "spokfile between start and the working directory, where the climb of a relative path ends"]},
 }
